@@ -53,6 +53,10 @@ CHECKS = {
             "Views-never-raise + engine-still-runs monitors on real gateways (file-sourced, fed through the real transport's receive function, and a port gateway on a fake serial port with sending enabled) over packet histories derived from the recorded logs by deletion, duplication, windowed reordering, splicing with other systems' / HVAC / binding logs and field mutation inside the schema regexes (extreme values), eavesdropping on/off: every public view of the gateway and of each device/system/zone/DHW is read every k-th packet; get_state() and _restore_cached_packets() (own snapshot, corrupted snapshot, restored twice, cancelled half-way) are invoked at seeded points and - returned or raised - must leave the engine as found (not paused, same handler, same read-only and discovery flags), a marker packet put on the wire afterwards must be handled end-to-end and a command must reach the serial port; after foreign traffic the known controller must still be a system, keep its zones and report a fresh zone temperature.",
             "Histories are re-timed to increasing unique timestamps; the marker is a 30C9 from a thermostat id no log uses; exceptions reaching the loop handler from deferred entity handlers are recorded, not judged; the port gateway runs with the library's own duty-cycle debug switch on (C11's subject).",
             "views-never-raise / engine-state / marker-packet monitors over mutated real histories", "§3 C13"),
+    "C15": ("exploration",
+            "Schema validity / reload / graph monitors on real gateways over packet histories derived from the recorded logs (delete, duplicate, reorder, splice, field mutation, conflicting zone claims, zone updates) with eavesdropping on/off and max_zones 1..16: at every k-th packet the reported schema must be accepted by SCH_GLOBAL_SCHEMAS, list no device under two zones / two controllers and no zone index >= max_zones, and the live object graph must be symmetric (child in parent.childs <=> child._parent is parent, a zone's sensor belongs to that zone); after every packet no device may have changed parent or controller; at seeded prefixes a fresh Gateway(**schema) must load and reproduce the controllers, zones (class, sensor, actuators), hot-water subsystem and appliance control. Generated validator-accepted, consistent schemas (1-3 controllers, 0-12 zones, all classes / sensor types incl. the controller, 0-8 actuators, DHW parts, relay/OTB appliance control, UFH controllers, orphans) are loaded as configuration and put through the same monitors.",
+            "Re-load comparison limited to the items the statement lists (orphans, UFH circuits and content-less zones are not compared); generated schemas use each device once; one recorded finding (controller-level 'orphans' lists cannot be loaded).",
+            "validator / reload-differential / graph-invariant / no-silent-move monitors over mutated real histories and generated schemas", "§3 C15"),
     "C16": ("exploration",
             "Snapshot fix-point monitor: a real gateway (port stack on a fake serial port under one virtual clock, incl. two frames in one serial read; file stack) is fed histories derived from the recorded logs (delete/duplicate/reorder/splice/mutate); at seeded prefixes and at the end a snapshot is taken with include_expired on/off. Content monitor: every snapshot line is accepted by Packet.from_dict + Message(), is no RQ, no W other than 0404 and (unless asked for) not expired on the gateway's own clock. Fix-point monitor: a fresh Gateway built the way a restarting application does it (Gateway(**schema) + start(cached_packets)) must give back the identical packet dict and, eavesdropping off, the identical schema. Idempotence monitor: restoring the same snapshot again into the fresh gateway and into the original changes neither.",
             "Timestamps are unique and increasing (a real receiver stamps on arrival); the schema clause is judged on the port stack with eavesdropping off (a fresh file gateway has no clock of its own); each stick's own start-up signature packet is excluded; one recorded finding (313F kept although expired, deliberate).",
